@@ -276,7 +276,11 @@ func (m *LifeMon) OnEvent(c *eng.Ctx, ms eng.MState, ev *eng.Event) eng.MState {
 			if ev.Chosen == ti {
 				s.waited, s.waitDur = true, dur
 				if di >= 0 {
-					s.obs, s.fresh, s.cut = nil, true, false
+					// the timer won: a cancellation that arrived during the wait would have been seen,
+					// one that was already there when the wait began may lose against an elapsed
+					// timer - so the wait keeps an earlier observation fresh, it does not replace it
+					s.fresh = m.fresh(c, s)
+					s.obs, s.cut = nil, false
 				}
 			}
 		}
@@ -673,8 +677,10 @@ func (m *LifeMon) onPost(c *eng.Ctx, s lifeState, ev *eng.Event, batch bool, chk
 	return s
 }
 
+// isCtxErr: the term is the result of a ctx.Err() call that is not known to have been nil on
+// this path (an observation made before the cancellation wraps nothing).
 func (m *LifeMon) isCtxErr(c *eng.Ctx, t *eng.Term) bool {
-	return t.K == eng.KEv && c.E.SiteClass[t.S] == "ctx.Err"
+	return t.K == eng.KEv && c.E.SiteClass[t.S] == "ctx.Err" && c.IsNil(t) != eng.TriTrue
 }
 
 func (m *LifeMon) onReturn(c *eng.Ctx, s lifeState, ev *eng.Event, batch bool) {
